@@ -158,6 +158,7 @@ class Analyzer:
                 raise TranslatorError(f"visitor class `{v}` not found")
         self.scopes = {}
         self.followed = set()   # (function, parameter) reached with a tracked node from another scope
+        self.unknown_escapes = set()  # (function, variable): an untracked variable handed on whole
         self.memo = set()
         self.order = []
 
@@ -443,6 +444,8 @@ class Analyzer:
             v = env.get(e.id)
             if v and v[0] == "node" and escaping:
                 v[1].escapes = True
+            if not v and escaping:
+                self.unknown_escapes.add((q, e.id))
             return v
         if isinstance(e, ast.Attribute):
             base = self.expr(e.value, env, cls, q, guard=guard, record=record)
@@ -561,6 +564,12 @@ class Analyzer:
             for _, v in tracked:
                 if v[0] == "node":
                     v[1].escapes = True
+        if not non_esc and target is None:
+            # an untracked variable handed on whole: narrowing scopes of that variable in this
+            # function do not consume the node (it lives on after the narrowed region)
+            for a in list(e.args) + [k.value for k in e.keywords]:
+                if isinstance(a, ast.Name) and not env.get(a.id):
+                    self.unknown_escapes.add((q, a.id))
         # a bare tracked node passed to append()/unknown method of an untracked receiver
         return None
 
@@ -602,6 +611,10 @@ class Analyzer:
                         sc = self.scope(f"{q}({a.arg}:{k})", k)
                         self.run_function(q, {a.arg: ("node", sc)}, "param")
             self.run_function(q, b, "param")
+        for (fq, var) in self.unknown_escapes:
+            for n in self.order:
+                if n.startswith(f"{fq}:{var} narrowed to "):
+                    self.scopes[n].escapes = True
         # derived scopes follow their parent's fate; empty derived / narrowing scopes say nothing
         for n in self.order:
             sc = self.scopes[n]
